@@ -18,8 +18,9 @@ HARNESS = VERIF / "harness"
 GEN = VERIF / ".gen"
 BUILD = VERIF / ".build"
 SCRATCH_ROOT = Path(os.environ.get("VERIF_SCRATCH", str(VERIF / ".scratch")))
-EVIDENCE = VERIF / "evidence"
-REPLAYS = VERIF / "replays"
+_alt = str(REPO) != "/repo"   # checks run against a scratch copy (self-test) must not touch the committed evidence
+EVIDENCE = (SCRATCH_ROOT / "alt-evidence") if _alt else VERIF / "evidence"
+REPLAYS = (SCRATCH_ROOT / "alt-replays") if _alt else VERIF / "replays"
 NCPU = int(os.environ.get("VERIF_JOBS", os.cpu_count() or 4))
 TLA_JAR = "/opt/veriftools/tla/tla2tools.jar:/opt/veriftools/tla/CommunityModules-deps.jar"
 
@@ -277,7 +278,7 @@ class Verdict:
             if k.get("property") == self.pid and k.get("status") == "known" and re.search(k["signature_regex"], signature):
                 self.known_hits.setdefault(k["id"], {"k": k, "n": 0})["n"] += 1
                 return
-        REPLAYS.mkdir(exist_ok=True)
+        REPLAYS.mkdir(parents=True, exist_ok=True)
         fn = REPLAYS / ("%s-%s.json" % (self.pid, sha(signature, json.dumps(replay_obj, sort_keys=True, default=str))[:10]))
         if len(self.violations) < 20:
             fn.write_text(json.dumps({"property": self.pid, "signature": signature, "detail": detail, "replay": replay_obj},
@@ -301,7 +302,7 @@ class Verdict:
 
 
 def write_evidence(pid, tier, seed, level, coverage, assumptions, wall_s, violations, extra=None):
-    EVIDENCE.mkdir(exist_ok=True)
+    EVIDENCE.mkdir(parents=True, exist_ok=True)
     ev = {"property_id": pid, "tier": tier, "seed": int(seed), "level": level, "coverage": coverage,
           "assumptions": assumptions, "wall_s": round(wall_s, 2), "violations": int(violations)}
     if extra:
